@@ -25,6 +25,8 @@ TECHNIQUE += '; register-preservation and constant-reload analysis over the disa
 
 EXPLANATION += ' X86-LOOPSTORE, A64-/RV-RT-STOREORDER, A64-IMMHELP, A64-/RV-MEM-HSEM, A64-/RV-DSREAD-HSEM, RVV-JIT-VLEN.'
 
+EXPLANATION += ' X86-/A64-/RV-LOOPLOAD.'
+
 
 def run(ctx, R):
     F = astq.Facts(ctx, 'K0')
